@@ -21,8 +21,11 @@ func init() {
 	})
 	register(&propDef{
 		id:      "C06",
-		explain: "Structural necessary condition of 'cookie setters cannot inject attributes or header lines': every value stored into the byte-slice fields of Cookie, and every key/value stored into the request cookie list of RequestHeader, is clean for both CR/LF and ';' on every way it can be produced (constants, formatter results, results of the two neutralisers or of helpers applying them on every path, clean arguments at every call site of unexported helpers); a value that passes a decoding/normalising step after the neutraliser is not clean. Exported parameters are the sources. (R-out) the cookie scanners assign every out-parameter on every path that reports a pair; (R-scratch) no function uses the old content or length of a scratch buffer (bufK / bufV), so a serialised attribute - the formatted expiry date - is always computed from the attribute as it is now. Not decided: round-trip equality, attribute combinations, expiry precision; the parse side (wire bytes) is outside the taint rule.",
-		run:     func(p *Prog, r *Report) { runTaintProp(p, r, "C06") },
+		explain: "Structural necessary condition of 'cookie setters cannot inject attributes or header lines': every value stored into the byte-slice fields of Cookie, and every key/value stored into the request cookie list of RequestHeader, is clean for both CR/LF and ';' on every way it can be produced (constants, formatter results, results of the two neutralisers or of helpers applying them on every path, clean arguments at every call site of unexported helpers); a value that passes a decoding/normalising step after the neutraliser is not clean. Exported parameters are the sources. (R-out) the cookie scanners assign every out-parameter on every path that reports a pair; (R-scratch) no function uses the old content or length of a scratch buffer (bufK / bufV), so a serialised attribute - the formatted expiry date - is always computed from the attribute as it is now. (R-attr) in the response-cookie parser every attribute branch writes one field of the Cookie, directly or through callees (may-write sets), so parsing one attribute never overwrites another - a producing-side setter with side effects must not be used there. Not decided: round-trip equality, attribute combinations, expiry precision; the parse side (wire bytes) is outside the taint rule.",
+		run: func(p *Prog, r *Report) {
+			runTaintProp(p, r, "C06")
+			cookieParserOneFieldPerAttribute(p, r)
+		},
 	})
 }
 
@@ -296,4 +299,87 @@ func wirePath(fn *ssa.Function) bool {
 		}
 	}
 	return false
+}
+
+// cookieParserOneFieldPerAttribute (C06.R-attr): a parsed Set-Cookie header
+// must give back exactly the attributes that were set. In the response-cookie
+// parser every attribute branch (the region entered when the scanned name or
+// flag compared equal to one attribute constant) writes one field of the
+// Cookie - directly or through callees. A branch that goes through a
+// producing-side setter with side effects (SetPartitioned also forces Secure
+// and Path) overwrites attributes that were parsed before it.
+func cookieParserOneFieldPerAttribute(p *Prog, r *Report) {
+	fn := p.Func("(*Cookie).ParseBytes")
+	cic := p.Func("caseInsensitiveCompare")
+	if fn == nil || cic == nil {
+		r.Undecided("R-attr", "Cookie.ParseBytes / caseInsensitiveCompare", "not found")
+		return
+	}
+	scratch := map[string]bool{"buf": true, "bufK": true, "bufV": true}
+	mi := p.modInfo()
+	cookieFields := map[*types.Var]bool{}
+	if st := structOf(fn.Params[0].Type()); st != nil {
+		for i := 0; i < st.NumFields(); i++ {
+			cookieFields[st.Field(i)] = true
+		}
+	}
+	n := 0
+	for _, b := range fn.Blocks {
+		if len(b.Preds) != 1 {
+			continue
+		}
+		pr := b.Preds[0]
+		iff, ok := pr.Instrs[len(pr.Instrs)-1].(*ssa.If)
+		if !ok || pr.Succs[0] != b {
+			continue
+		}
+		cv, ok := iff.Cond.(*ssa.Call)
+		if !ok || cv.Call.StaticCallee() != cic {
+			continue
+		}
+		name := ""
+		for _, a := range cv.Call.Args {
+			if g := globalOf(a); strings.HasPrefix(g, "strCookie") {
+				name = g
+			}
+		}
+		if name == "" {
+			continue
+		}
+		// the region of this attribute: blocks dominated by b, up to nested attribute-value tests (SameSite modes are
+		// still the same field)
+		fields := map[string]bool{}
+		for _, bb := range fn.Blocks {
+			if bb != b && !b.Dominates(bb) {
+				continue
+			}
+			for _, in := range bb.Instrs {
+				switch w := in.(type) {
+				case *ssa.Store:
+					if fa, ok := w.Addr.(*ssa.FieldAddr); ok && typeNameOf(fa.X) == "Cookie" {
+						fields[fieldName(fa.X.Type(), fa.Field)] = true
+					}
+				case ssa.CallInstruction:
+					callee := w.Common().StaticCallee()
+					if callee == nil || !inModule(callee) {
+						continue
+					}
+					for fv := range mi.of(callee) {
+						if cookieFields[fv] {
+							fields[fv.Name()] = true
+						}
+					}
+				}
+			}
+		}
+		for f := range fields {
+			if scratch[f] {
+				delete(fields, f)
+			}
+		}
+		n++
+		r.Check("R-attr", fmt.Sprintf("Cookie.ParseBytes: the branch of attribute %s writes one attribute field", name), len(fields) <= 1, p.Pos(iff.Pos()),
+			"fields written under this attribute: "+joinSorted(fields)+" - parsing this attribute also overwrites other attributes of the cookie (a producing-side setter with side effects is used by the parser), so the header does not parse back with the attributes that were set")
+	}
+	r.Floor("R-attr", "attribute branches of the response-cookie parser", n, 8)
 }
